@@ -21,6 +21,7 @@ type Failure struct {
 }
 
 type Rec struct {
+	OnlyProp string // see Fail
 	Prop      string
 	Tier      string
 	Seed      int64
@@ -64,7 +65,13 @@ func (r *Rec) Case(sig string, nontrivial bool) {
 	}
 }
 
+// Fail records an oracle failure. While OnlyProp is set (a shared scenario runs inside the check of one property), a
+// failure whose key belongs to ANOTHER property is left to that property's own check and only counted here.
 func (r *Rec) Fail(key, what string, replay []string) {
+	if r.OnlyProp != "" && len(key) > 4 && key[0] == 'C' && key[3] == '/' && key[:3] != r.OnlyProp {
+		r.Count("other-property-oracle:" + key[:3])
+		return
+	}
 	r.Failures = append(r.Failures, Failure{Key: key, What: what, Replay: replay})
 }
 
